@@ -26,7 +26,7 @@ def need_tracked(vd) -> bool:
 
 class C12(tk.TableProp):
     id = "C12"
-    lean_modules = ["VivModel.Props.C12"]
+    lean_modules = ["VivModel.Props.C12", "VivModel.Props.C12Src"]
     technique = ("Lean 4 proof (rows = request filtered by view query, extra query and the tracked rule, in request order; "
                  "columns and values; sub-view inheritance; composition with the C11 frame rule) + differential "
                  "correspondence of read histories on a real PopulationManager + reference filter over the full table")
